@@ -17,7 +17,7 @@ CONFIG = {
                  "cmsys.StripAnsi (isEscapeParam, isEscapeCommand, ESCAPE_FLAG)", "types.ReadLine",
                  "cmsys.StringHash", "cmsys.StringHashWithHashBits", "cmsys.fnv1a32StrCase",
                  "cmsys.StripNoneBig5", "cmsys.DBCSNextStatus", "cmsys.DBCSStatus", "cmsys.DBCSSafeTrim", "cmsys.Trim",
-                 "cmsys.StrcaseStartsWith", "types.TrimDBCS", "cmbbs.SubjectEx", "ptt.StripANSIMoveCmd",
+                 "cmsys.StrcaseStartsWith", "types.TrimDBCS", "cmbbs.SubjectEx", "ptt.StripANSIMoveCmd", "ptt.myWrite/myWriteMsg (strip-all call site, LastCallIn; driven through go:linkname)", "ptt.CrossPost title statements (regenerated call-site fact + model crossPostTitle; not driven)",
                  "result ownership of every slice-returning helper (heap model Model/C18Alias.lean: StripAnsi/CstrTolower/CstrToupper/ReadLine return fresh memory, "
                  "CstrToBytes/CstrTokenR/DBCSSafeTrim/Trim/SubjectEx a view of the argument, StripNoneBig5/TrimDBCS work in the caller's array) over histories of calls"],
     "assumptions": [
